@@ -49,6 +49,8 @@ func (n *node[T]) buildIndexes() {
 
 	if n.indexes == nil {
 		n.indexes = make(map[byte]int, indexesSize)
+	} else {
+		clear(n.indexes) // 子节点可能已经被删除或是改变了位置，需要重新生成。
 	}
 
 	for index, node := range n.children {
@@ -162,6 +164,7 @@ func (n *node[T]) find(pattern string) *node[T] {
 func (n *node[T]) clean(prefix string) {
 	if len(prefix) == 0 {
 		n.children = n.children[:0]
+		n.buildIndexes()
 		return
 	}
 
